@@ -7,6 +7,8 @@ import (
 
 	"berty.tech/go-orbit-db/address"
 	"berty.tech/go-orbit-db/cache"
+	blocks "github.com/ipfs/go-block-format"
+	cid "github.com/ipfs/go-cid"
 	ds "github.com/ipfs/go-datastore"
 	"github.com/ipfs/go-datastore/query"
 	dsync "github.com/ipfs/go-datastore/sync"
@@ -193,3 +195,37 @@ func (w *journaledDS) Close() error                              { return nil }
 
 var _ ds.Datastore = &journaledDS{}
 var _ cache.Interface = &diskCache{}
+
+// MaterialisePrefix builds a detached, offline peer holding exactly the given
+// persistence effects (blocks and datastore writes), as a crash would leave it.
+func MaterialisePrefix(slot int, effects []Effect) (*Peer, error) {
+	p, err := NewDetachedPeer(slot)
+	if err != nil {
+		return nil, err
+	}
+	ctx := context.Background()
+	for _, e := range effects {
+		switch e.Kind {
+		case "block":
+			c, err := cid.Decode(e.Cid)
+			if err != nil {
+				continue
+			}
+			blk, err := blocks.NewBlockWithCid(e.Value, c)
+			if err != nil {
+				continue
+			}
+			if err := p.node.Blockstore.Put(ctx, blk); err != nil {
+				p.Shutdown()
+				return nil, err
+			}
+		case "cache.destroy":
+			p.Disk.mu.Lock()
+			delete(p.Disk.stores, e.Store)
+			p.Disk.mu.Unlock()
+		default:
+			p.Disk.Apply(e)
+		}
+	}
+	return p, nil
+}
